@@ -1,8 +1,8 @@
 package main
 
 import (
-	"github.com/openfga/language/pkg/go/graph"
 	"fmt"
+	"github.com/openfga/language/pkg/go/graph"
 	"github.com/openfga/language/pkg/go/transformer"
 	"google.golang.org/protobuf/encoding/protojson"
 	"math/rand"
@@ -577,94 +577,104 @@ func init() {
 			"identical weights and wildcard sets on every node and edge; permuting the operands of unions and intersections leaves every relation's weights unchanged. non-trivial = distinct model with >= 2 non-terminal nodes compared under >= 2 orders"
 		rng := rand.New(rand.NewSource(c.Seed))
 		models := genWModels(rng, c.Pick(1000, 10000))
-		cases := evalWCases(c, rng, models, c.Pick(3, 10), c.Pick(5, 7), c.Pick(16, 40))
 		permOps := []string{}
-		permRef := []*wCase{}
-		for _, wc := range cases {
-			c.R.Evaluations++
-			c.R.Programs++
-			c.R.DisagreementsChecked++
-			all := wc.all()
-			if len(all) >= 3 {
-				c.Nontrivial(wc.canon)
+		type permR struct{ canon, raw string }
+		permRef := []permR{}
+		keep := []*wCase{}
+		reps, exh, smp := c.Pick(3, 10), c.Pick(5, 7), c.Pick(16, 40)
+		// the models are evaluated in batches: the builds of one batch (every order of every model, with full dumps)
+		// are dropped before the next one, which keeps the thorough tier's memory flat
+		for start := 0; start < len(models); start += 400 {
+			cases := evalWCases(c, rng, models[start:min(start+400, len(models))], reps, exh, smp)
+			if len(keep) < 600 {
+				keep = append(keep, cases...)
 			}
-			c.DistN("builds_compared", len(all))
-			ref := all[0]
-			bad := false
-			for i, r := range all[1:] {
-				if r.Full != ref.Full || (r.Err != "") != (ref.Err != "") {
-					in := wInput(wc, i+1)
-					in["other_order"] = wc.orderOf(0)
-					c.OracleFail("c06:orders", in, fmt.Sprintf("two builds of the same model differ: %q / %q", trunc(ref.Err+" "+ref.Full, 300), trunc(r.Err+" "+r.Full, 300)), "")
-					bad = true
-					break
+			for _, wc := range cases {
+				c.R.Evaluations++
+				c.R.Programs++
+				c.R.DisagreementsChecked++
+				all := wc.all()
+				if len(all) >= 3 {
+					c.Nontrivial(wc.canon)
 				}
-			}
-			if bad {
-				continue
-			}
-			// one builder object reused for every model of the run: what it built before must not matter
-			if c06Reused == nil {
-				c06Reused = graph.NewWeightedAuthorizationModelGraphBuilder()
-			}
-			{
-				var rg *graph.WeightedAuthorizationModelGraph
-				var rerr error
-				rr := wResult{}
-				if p := safely(func() { rg, rerr = c06Reused.Build(wc.pm) }); p != "" {
-					rr = wResult{Err: "panic:" + p, Full: "panic:" + p}
-				} else if rerr != nil {
-					rr = wResult{Err: errClass(rerr), Full: "err"}
-				} else {
-					rr = dumpWGraph(rg, true)
+				c.DistN("builds_compared", len(all))
+				ref := all[0]
+				bad := false
+				for i, r := range all[1:] {
+					if r.Full != ref.Full || (r.Err != "") != (ref.Err != "") {
+						in := wInput(wc, i+1)
+						in["other_order"] = wc.orderOf(0)
+						c.OracleFail("c06:orders", in, fmt.Sprintf("two builds of the same model differ: %q / %q", trunc(ref.Err+" "+ref.Full, 300), trunc(r.Err+" "+r.Full, 300)), "")
+						bad = true
+						break
+					}
 				}
-				c.Dist("builds_on_a_reused_builder")
-				if rr.Full != ref.Full || (rr.Err != "") != (ref.Err != "") {
-					c.OracleFail("c06:reused-builder", map[string]any{"model": wc.canon, "previous_model": c06Prev},
-						fmt.Sprintf("a builder that has built other models before gives a different result than a fresh one: %q / %q", trunc(ref.Err+" "+ref.Full, 300), trunc(rr.Err+" "+rr.Full, 300)), "")
-					c06Reused = nil
+				if bad {
 					continue
 				}
-				c06Prev = wc.canon
-			}
-			// permuted type definitions
-			for k := 0; k < 2; k++ {
-				sh := proto.Clone(wc.pm).(*openfgav1.AuthorizationModel)
-				rng.Shuffle(len(sh.TypeDefinitions), func(i, j int) {
-					sh.TypeDefinitions[i], sh.TypeDefinitions[j] = sh.TypeDefinitions[j], sh.TypeDefinitions[i]
-				})
-				r := realWBuild(sh)
-				if r.Full != ref.Full || (r.Err != "") != (ref.Err != "") {
-					c.OracleFail("c06:type-order", map[string]any{"model": wc.canon, "permuted": canonModel(sh)}, "permuting the type definitions changes the weighted graph", "")
-					bad = true
-					break
+				// one builder object reused for every model of the run: what it built before must not matter
+				if c06Reused == nil {
+					c06Reused = graph.NewWeightedAuthorizationModelGraphBuilder()
 				}
-				if k == 0 {
-					// the specification on the permuted model: Props/C06.type_order_irrelevant says it is the same
-					// (its hypotheses for the permuted graph are evaluated here: an (unconverged) answer differs)
-					permOps = append(permOps, L("wspec", canonModel(sh)))
-					permRef = append(permRef, wc)
+				{
+					var rg *graph.WeightedAuthorizationModelGraph
+					var rerr error
+					rr := wResult{}
+					if p := safely(func() { rg, rerr = c06Reused.Build(wc.pm) }); p != "" {
+						rr = wResult{Err: "panic:" + p, Full: "panic:" + p}
+					} else if rerr != nil {
+						rr = wResult{Err: errClass(rerr), Full: "err"}
+					} else {
+						rr = dumpWGraph(rg, true)
+					}
+					c.Dist("builds_on_a_reused_builder")
+					if rr.Full != ref.Full || (rr.Err != "") != (ref.Err != "") {
+						c.OracleFail("c06:reused-builder", map[string]any{"model": wc.canon, "previous_model": c06Prev},
+							fmt.Sprintf("a builder that has built other models before gives a different result than a fresh one: %q / %q", trunc(ref.Err+" "+ref.Full, 300), trunc(rr.Err+" "+rr.Full, 300)), "")
+						c06Reused = nil
+						continue
+					}
+					c06Prev = wc.canon
 				}
-			}
-			if bad {
-				continue
-			}
-			// permuted commutative operands: relation weights unchanged (three permutations)
-			for pk := 0; pk < 3; pk++ {
-				pm2 := permuteOperands(rng, wc.m)
-				r2 := realWBuild(pm2.Proto())
-				// (the per-edge reading of intersections and exclusions, KF-C04-operand-grouping, is itself independent of
-				// the order of the operands of a union or intersection: no exemption here)
-				if (r2.Err != "") != (ref.Err != "") {
-					c.OracleFail("c06:operand-order", map[string]any{"model": wc.canon, "permuted": canonModel(pm2.Proto())}, "permuting union/intersection operands changes the verdict", ref.Err+" / "+r2.Err)
-				} else if ref.Err == "" {
-					for n, w := range ref.Weights {
-						if strings.Contains(n, "@") {
-							continue
-						}
-						if sortedWeights(w) != sortedWeights(r2.Weights[n]) {
-							c.OracleFail("c06:operand-order", map[string]any{"model": wc.canon, "permuted": canonModel(pm2.Proto()), "relation": n}, "permuting union/intersection operands changes a relation's weights", "")
-							break
+				// permuted type definitions
+				for k := 0; k < 2; k++ {
+					sh := proto.Clone(wc.pm).(*openfgav1.AuthorizationModel)
+					rng.Shuffle(len(sh.TypeDefinitions), func(i, j int) {
+						sh.TypeDefinitions[i], sh.TypeDefinitions[j] = sh.TypeDefinitions[j], sh.TypeDefinitions[i]
+					})
+					r := realWBuild(sh)
+					if r.Full != ref.Full || (r.Err != "") != (ref.Err != "") {
+						c.OracleFail("c06:type-order", map[string]any{"model": wc.canon, "permuted": canonModel(sh)}, "permuting the type definitions changes the weighted graph", "")
+						bad = true
+						break
+					}
+					if k == 0 {
+						// the specification on the permuted model: Props/C06.type_order_irrelevant says it is the same
+						// (its hypotheses for the permuted graph are evaluated here: an (unconverged) answer differs)
+						permOps = append(permOps, L("wspec", canonModel(sh)))
+						permRef = append(permRef, permR{wc.canon, wc.spec.Raw})
+					}
+				}
+				if bad {
+					continue
+				}
+				// permuted commutative operands: relation weights unchanged (three permutations)
+				for pk := 0; pk < 3; pk++ {
+					pm2 := permuteOperands(rng, wc.m)
+					r2 := realWBuild(pm2.Proto())
+					// (the per-edge reading of intersections and exclusions, KF-C04-operand-grouping, is itself independent of
+					// the order of the operands of a union or intersection: no exemption here)
+					if (r2.Err != "") != (ref.Err != "") {
+						c.OracleFail("c06:operand-order", map[string]any{"model": wc.canon, "permuted": canonModel(pm2.Proto())}, "permuting union/intersection operands changes the verdict", ref.Err+" / "+r2.Err)
+					} else if ref.Err == "" {
+						for n, w := range ref.Weights {
+							if strings.Contains(n, "@") {
+								continue
+							}
+							if sortedWeights(w) != sortedWeights(r2.Weights[n]) {
+								c.OracleFail("c06:operand-order", map[string]any{"model": wc.canon, "permuted": canonModel(pm2.Proto()), "relation": n}, "permuting union/intersection operands changes a relation's weights", "")
+								break
+							}
 						}
 					}
 				}
@@ -694,12 +704,12 @@ func init() {
 			for i, l := range lines {
 				c.R.DisagreementsChecked++
 				c.Dist("spec_on_permuted_types")
-				if l != permRef[i].spec.Raw {
+				if l != permRef[i].raw {
 					c.R.Disagreements = append(c.R.Disagreements, Case{Stream: "spec:type-order", Kind: "correspondence",
 						Input:  map[string]any{"model": permRef[i].canon},
 						Op:     permOps[i],
 						Detail: "the specification gives a different answer for the model with permuted type definitions (Props/C06.type_order_irrelevant or one of its run-time hypotheses fails)",
-						Lean:   trunc(l, 400), Go: trunc(permRef[i].spec.Raw, 400)})
+						Lean:   trunc(l, 400), Go: trunc(permRef[i].raw, 400)})
 				}
 			}
 		}
@@ -707,8 +717,8 @@ func init() {
 		conc := c.Pick(60, 600)
 		var wg sync.WaitGroup
 		var mu sync.Mutex
-		for i := 0; i < conc && i < len(cases); i++ {
-			wc := cases[i]
+		for i := 0; i < conc && i < len(keep); i++ {
+			wc := keep[i]
 			ref := wc.unforced[0]
 			for gi := 0; gi < 8; gi++ {
 				wg.Add(1)
@@ -724,7 +734,7 @@ func init() {
 			}
 		}
 		wg.Wait()
-		c.DistN("concurrent_builds", 8*min(conc, len(cases)))
+		c.DistN("concurrent_builds", 8*min(conc, len(keep)))
 		c.Sample(map[string]any{"dsl": "define a: b / define b: [doc#a] or a", "note": "rejected under every start order"})
 		_ = sort.Strings
 	}
